@@ -154,6 +154,41 @@ pub fn run(cfg: &Cfg, log: &mut Log) {
                 let g = rc.root.ser_guarded(&v, &mut sink);
                 judge_fail(log, &format!("C13/fail-split/{}", class), rc.name, &v, &format!("splitting writer fails at byte {}", k), &g, &sink, &clean, &enc.care, k < l);
             }
+            // the schema-recording entry point must report the same failures
+            {
+                let mut sink = IoSink::new();
+                sink.flush_fails = true;
+                log.count("evaluations", 1);
+                log.count("schema_entry_faults", 1);
+                match rc.root.ser_schema(&v, &mut sink) {
+                    Err(Fail::Err(SerErr::Write)) => {}
+                    other => log.violation("C13", &format!("C13/schema-flush/{}", class), rc.name, Some(&v),
+                        format!("serialize_with_schema into a writer whose flush fails: {:?} (flush called {} times)", other.map(|_| "Ok(schema)").map_err(|f| fail_str(&f)), sink.flushes), vec![]),
+                }
+                for k in [0usize, 12, 36, l / 2, l.saturating_sub(1)] {
+                    if k >= l {
+                        continue;
+                    }
+                    let mut sink = IoSink::failing_at(k);
+                    log.count("evaluations", 1);
+                    log.count("schema_entry_faults", 1);
+                    match rc.root.ser_schema(&v, &mut sink) {
+                        Err(Fail::Err(SerErr::Write)) if sink.data.len() <= k => {}
+                        other => log.violation("C13", &format!("C13/schema-fail-at/{}", class), rc.name, Some(&v),
+                            format!("serialize_with_schema into a writer failing at byte {}: {:?}", k, other.map(|_| "Ok(schema)").map_err(|f| fail_str(&f))), vec![]),
+                    }
+                }
+                // a successful serialization flushes the writer (otherwise a
+                // flush-time failure could never be reported)
+                let mut ok_sink = IoSink::new();
+                if rc.root.ser(&v, &mut ok_sink).is_ok() && ok_sink.flushes == 0 {
+                    log.violation("C13", &format!("C13/no-flush/{}", class), rc.name, Some(&v), "serialize never flushed the writer".into(), vec![]);
+                }
+                let mut ok_sink = IoSink::new();
+                if rc.root.ser_schema(&v, &mut ok_sink).is_ok() && ok_sink.flushes == 0 {
+                    log.violation("C13", &format!("C13/no-flush-schema/{}", class), rc.name, Some(&v), "serialize_with_schema never flushed the writer".into(), vec![]);
+                }
+            }
             // the library's own no-std writer trait, failing at the n-th call
             let mut probe = NoStdSink::default();
             if rc.root.ser_nostd(&v, &mut probe).is_ok() {
